@@ -22,7 +22,9 @@ Oracle, per emitted configuration (nothing more than the statement asks):
  load        every reference resolves / every object constructs (loggers, samplers too);
  target      the density handed to the sampler/optimiser (its id is read from the emitted
              MCMC/Optimizer object) evaluates to a finite number at the initial point and
-             so does its gradient w.r.t. every leaf the algorithm moves;
+             so does its gradient w.r.t. every leaf the algorithm moves (hmc, map: at the
+             initial point; advi: at the generic point below, since it only ever evaluates
+             draws around its mean; mcmc: not asked, its operators use no gradient);
  init        constrained initial values equal the ones requested on the command line;
  accounting  (advi, hmc, mcmc) the target is split into density entries and Jacobian
              entries; independently, the map  u -> c  from the moved unconstrained leaves
@@ -32,7 +34,11 @@ Oracle, per emitted configuration (nothing more than the statement asks):
              that is square and non-singular (every leaf has a prior on its constrained
              image), the Jacobian entries of the block must sum to log|det dc/du|.  Blocks
              where some leaf has no prior, and the `map` sub-command (mode of the
-             constrained density, no Jacobian by definition), are not judged.
+             constrained density, no Jacobian by definition), are not judged.  This is done
+             on a second, fresh load of the emitted JSON in which every moved leaf is
+             displaced by 0.02..0.14 from its initial value (at the initial point itself
+             many log-Jacobians are exactly 0 and a missing term would be invisible);
+             VERIF_SEED rotates the offsets.
 A command line rejected by argparse / check_arguments / sys.exit / NotImplementedError,
 or on which the CLI itself dies before printing anything, emits no configuration and is
 counted, not judged."""
